@@ -677,6 +677,37 @@ def register(g):
               '/-- the command `delete_dest_entry` builds for a destination entry, translated -/\n'
               f'def deleteCmdSrc (p : String) (d : Details) : Cmd :=\n  {e_c}\nend Rj.Generated\n')
 
+    def try_from():
+        """RootRelativePath::try_from(&Path) of root_relative_path.rs TRANSLATED: the loop over the path's components - which characters refuse a component,
+        what is put between two components - as a step function for a fold"""
+        import re as _re
+        src = strip_comments(read('src/root_relative_path.rs'))
+        ok = True; chars, sep = [], '/'
+        try:
+            m = _re.search(r'impl\s+TryFrom<&Path>\s+for\s+RootRelativePath\s*\{', src)
+            if not m: raise ValueError('impl TryFrom<&Path>')
+            body = _re.sub(r'\s+', '', fn_body(src[m.start():], 'try_from') or '')
+            if body.startswith('{') and body.endswith('}'): body = body[1:-1]
+            E = r'returnErr\("[^"]*"\.to_string\(\)\)'
+            pat = (r'ifp\.is_absolute\(\)\{' + E + r';\}letmutresult=String::new\(\);forcinp\.iter\(\)\{letcs=matchc\.to_str\(\)\{Some\(x\)=>x,None=>' + E + r',\};'
+                   r"if((?:cs\.contains\('(?:\\\\|[^'\\])'\)(?:\|\|)?)+)\{" + E + r';\}if!result\.is_empty\(\)\{result\+="([^"\\]*)";\}result\+=cs;\}Ok\(RootRelativePath\{inner:result\}\)')
+            mm = _re.fullmatch(pat, body)
+            if not mm: raise ValueError('body of try_from: ' + body[:80])
+            chars = _re.findall(r"cs\.contains\('(\\\\|[^'\\])'\)", mm.group(1)); sep = mm.group(2)
+            if len(sep) != 1: raise ValueError('separator ' + sep)
+        except Exception as e:
+            ok = False
+            status['try-from'] = f'RootRelativePath::try_from is outside the translated subset: {e!r}'
+        lc = lambda c: "'\\\\'" if c == '\\\\' else "'" + c + "'"
+        cond = ' || '.join(f'cs.contains {lc(c)}' for c in chars) or 'false'
+        write('TryFrom.lean', 'namespace Rj.Generated\n'
+              f'def tryFromTranslated : Bool := {"true" if ok else "false"}\n'
+              '/-- one round of the loop of `RootRelativePath::try_from`: `none` = the component is refused -/\n'
+              'def tryFromStepSrc (result cs : List Char) : Option (List Char) :=\n'
+              f'  if ({cond}) then none\n  else some ((if !result.isEmpty then result ++ [{lc(sep)}] else result) ++ cs)\n'
+              '/-- the loop over the components (the path is relative; every component is valid UTF-8) -/\n'
+              'def tryFromSrc (comps : List (List Char)) : Option (List Char) := comps.foldlM tryFromStepSrc []\nend Rj.Generated\n')
+
     def apply_filters_skel():
         """apply_filters of doer.rs: the early return for the root, the default by the first filter's kind, the assignment loop"""
         import re as _re
@@ -730,4 +761,4 @@ def register(g):
               f'def pathDescDriveGuard : String := {lean_str(guard)}\ndef pathDescSplits : Nat := {n_split}\nend Rj.Generated\n')
 
     g_ = g
-    return {'delete_cmd': delete_cmd, 'confirm_shape': confirm_shape, 'root_rel': root_rel, 'behaviour_writes': behaviour_writes, 'ordered_map': ordered_map, 'process_entries': process_entries, 'path_desc': path_desc, 'apply_filters_skel': apply_filters_skel, 'decisions': decisions, 'run_skel': run_skel, 'link_socket': link_socket, 'session': session, 'defaults': defaults, 'skeletons': skeletons, 'sites': sites, 'shutdown': shutdown, 'panic_sites': panic_sites, 'walker': walker, 'slash_table': slash_table}
+    return {'try_from': try_from, 'delete_cmd': delete_cmd, 'confirm_shape': confirm_shape, 'root_rel': root_rel, 'behaviour_writes': behaviour_writes, 'ordered_map': ordered_map, 'process_entries': process_entries, 'path_desc': path_desc, 'apply_filters_skel': apply_filters_skel, 'decisions': decisions, 'run_skel': run_skel, 'link_socket': link_socket, 'session': session, 'defaults': defaults, 'skeletons': skeletons, 'sites': sites, 'shutdown': shutdown, 'panic_sites': panic_sites, 'walker': walker, 'slash_table': slash_table}
